@@ -18,22 +18,16 @@ package main
 // "position not found" error there).
 
 import (
-	"context"
 	"crypto/sha256"
 	"encoding/hex"
 	"fmt"
 	"sort"
 
 	sifapp "github.com/Sifchain/sifnode/app"
-	adminkeeper "github.com/Sifchain/sifnode/x/admin/keeper"
 	admintypes "github.com/Sifchain/sifnode/x/admin/types"
-	clpkeeper "github.com/Sifchain/sifnode/x/clp/keeper"
 	clptypes "github.com/Sifchain/sifnode/x/clp/types"
-	ethkeeper "github.com/Sifchain/sifnode/x/ethbridge/keeper"
 	ethtypes "github.com/Sifchain/sifnode/x/ethbridge/types"
-	marginkeeper "github.com/Sifchain/sifnode/x/margin/keeper"
 	margintypes "github.com/Sifchain/sifnode/x/margin/types"
-	trkeeper "github.com/Sifchain/sifnode/x/tokenregistry/keeper"
 	trtypes "github.com/Sifchain/sifnode/x/tokenregistry/types"
 	"github.com/cosmos/cosmos-sdk/store/rootmulti"
 	storetypes "github.com/cosmos/cosmos-sdk/store/types"
@@ -45,7 +39,7 @@ import (
 type handlerCase struct {
 	module, name string
 	lenient      bool // success of an authorised signer not guaranteed: chk lines only
-	call         func(ctx sdk.Context, signer string, k int) error
+	build        func(ctx sdk.Context, signer string, k int) sdk.Msg
 	payload      func(k int) (string, string) // role, address of AddAccount / RemoveAccount
 }
 
@@ -94,8 +88,7 @@ func init() {
 			addrs = append(addrs, a)
 			app.AccountKeeper.SetAccount(ctx, app.AccountKeeper.NewAccountWithAddress(ctx, a))
 		}
-		roles := []admintypes.AdminType{admintypes.AdminType_CLPDEX, admintypes.AdminType_PMTPREWARDS, admintypes.AdminType_TOKENREGISTRY,
-			admintypes.AdminType_ETHBRIDGE, admintypes.AdminType_ADMIN, admintypes.AdminType_MARGIN}
+		roles := authRoles
 		// set-up: accounts 0..5 hold one role each, 6 holds two, 7 is the oracle admin, 8 and 9 are on the clp
 		// whitelist, 10 is also ADMIN (so that ADMIN can be removed from 4 and the table still evolves), 11.. hold nothing
 		for i, r := range roles {
@@ -132,151 +125,7 @@ func init() {
 			out.Emit("cfg clp -", "ok", "cfg", false)
 		}
 
-		adminSrv := adminkeeper.NewMsgServerImpl(app.AdminKeeper)
-		trSrv := trkeeper.NewMsgServerImpl(app.TokenRegistryKeeper)
-		clpSrv := clpkeeper.NewMsgServerImpl(app.ClpKeeper)
-		marginSrv := marginkeeper.NewMsgServerImpl(app.MarginKeeper)
-		ethSrv := ethkeeper.NewMsgServerImpl(app.EthbridgeKeeper)
-		g := func(c sdk.Context) context.Context { return sdk.WrapSDKContext(c) }
-
-		// the account whose role an AddAccount / RemoveAccount of iteration k is about
-		pay := func(k int) (admintypes.AdminType, sdk.AccAddress) { return roles[k%len(roles)], addrs[(k/len(roles))%NACC] }
-		payS := func(k int) (string, string) { r, a := pay(k); return r.String(), a.String() }
-
-		cases := []handlerCase{
-			{module: "admin", name: "AddAccount", payload: payS, call: func(c sdk.Context, s string, k int) error {
-				r, a := pay(k)
-				_, err := adminSrv.AddAccount(g(c), &admintypes.MsgAddAccount{Signer: s, Account: &admintypes.AdminAccount{AdminType: r, AdminAddress: a.String()}})
-				return err
-			}},
-			{module: "admin", name: "RemoveAccount", payload: payS, call: func(c sdk.Context, s string, k int) error {
-				r, a := pay(k)
-				_, err := adminSrv.RemoveAccount(g(c), &admintypes.MsgRemoveAccount{Signer: s, Account: &admintypes.AdminAccount{AdminType: r, AdminAddress: a.String()}})
-				return err
-			}},
-			{module: "admin", name: "SetParams", call: func(c sdk.Context, s string, k int) error {
-				_, err := adminSrv.SetParams(g(c), &admintypes.MsgSetParams{Signer: s, Params: &admintypes.Params{SubmitProposalFee: sdk.NewUint(uint64(1000 + k))}})
-				return err
-			}},
-			{module: "tokenregistry", name: "Register", call: func(c sdk.Context, s string, k int) error {
-				_, err := trSrv.Register(g(c), &trtypes.MsgRegister{From: s, Entry: &trtypes.RegistryEntry{Denom: fmt.Sprintf("ctok%d", k%7), Decimals: 18}})
-				return err
-			}},
-			{module: "tokenregistry", name: "SetRegistry", call: func(c sdk.Context, s string, k int) error {
-				_, err := trSrv.SetRegistry(g(c), &trtypes.MsgSetRegistry{From: s, Registry: &trtypes.Registry{Entries: []*trtypes.RegistryEntry{{Denom: "rowan", Decimals: 18}, {Denom: fmt.Sprintf("cset%d", k%5), Decimals: 6}}}})
-				return err
-			}},
-			{module: "tokenregistry", name: "Deregister", call: func(c sdk.Context, s string, k int) error {
-				_, err := trSrv.Deregister(g(c), &trtypes.MsgDeregister{From: s, Denom: fmt.Sprintf("ctok%d", k%7)})
-				return err
-			}},
-			{module: "clp", name: "SetSymmetryThreshold", call: func(c sdk.Context, s string, k int) error {
-				_, err := clpSrv.SetSymmetryThreshold(g(c), &clptypes.MsgSetSymmetryThreshold{Signer: s, Threshold: sdk.NewDecWithPrec(int64(1+k%50), 2), Ratio: sdk.NewDecWithPrec(5, 4)})
-				return err
-			}},
-			{module: "clp", name: "UpdateLiquidityProtectionParams", call: func(c sdk.Context, s string, k int) error {
-				_, err := clpSrv.UpdateLiquidityProtectionParams(g(c), &clptypes.MsgUpdateLiquidityProtectionParams{Signer: s, MaxRowanLiquidityThreshold: sdk.NewUint(uint64(1000000 + k)), MaxRowanLiquidityThresholdAsset: "rowan", EpochLength: 10, IsActive: k%2 == 0})
-				return err
-			}},
-			{module: "clp", name: "ModifyLiquidityProtectionRates", call: func(c sdk.Context, s string, k int) error {
-				_, err := clpSrv.ModifyLiquidityProtectionRates(g(c), &clptypes.MsgModifyLiquidityProtectionRates{Signer: s, CurrentRowanLiquidityThreshold: sdk.NewUint(uint64(k % 100))})
-				return err
-			}},
-			{module: "clp", name: "UpdateStakingRewardParams", call: func(c sdk.Context, s string, k int) error {
-				p := minttypes.DefaultParams()
-				p.BlocksPerYear = uint64(6000000 + k)
-				_, err := clpSrv.UpdateStakingRewardParams(g(c), &clptypes.MsgUpdateStakingRewardParams{Signer: s, Params: p, Minter: minttypes.Minter{Inflation: sdk.ZeroDec(), AnnualProvisions: sdk.ZeroDec()}})
-				return err
-			}},
-			{module: "clp", name: "UpdateRewardsParams", call: func(c sdk.Context, s string, k int) error {
-				_, err := clpSrv.UpdateRewardsParams(g(c), &clptypes.MsgUpdateRewardsParamsRequest{Signer: s, LiquidityRemovalLockPeriod: uint64(k % 9), LiquidityRemovalCancelPeriod: 3, RewardsLockPeriod: 1, RewardsEpochIdentifier: "day"})
-				return err
-			}},
-			{module: "clp", name: "AddRewardPeriod", call: func(c sdk.Context, s string, k int) error {
-				one := sdk.OneDec()
-				a := sdk.NewUint(uint64(1000 + k))
-				_, err := clpSrv.AddRewardPeriod(g(c), &clptypes.MsgAddRewardPeriodRequest{Signer: s, RewardPeriods: []*clptypes.RewardPeriod{{RewardPeriodId: fmt.Sprintf("rp%d", k%4), RewardPeriodStartBlock: 1, RewardPeriodEndBlock: 100, RewardPeriodAllocation: &a, RewardPeriodDefaultMultiplier: &one, RewardPeriodDistribute: false, RewardPeriodMod: 1}}})
-				return err
-			}},
-			{module: "clp", name: "AddProviderDistributionPeriod", call: func(c sdk.Context, s string, k int) error {
-				_, err := clpSrv.AddProviderDistributionPeriod(g(c), &clptypes.MsgAddProviderDistributionPeriodRequest{Signer: s, DistributionPeriods: []*clptypes.ProviderDistributionPeriod{{DistributionPeriodBlockRate: sdk.NewDecWithPrec(1, 2), DistributionPeriodStartBlock: 10, DistributionPeriodEndBlock: uint64(20 + k%10), DistributionPeriodMod: 1}}})
-				return err
-			}},
-			{module: "clp", name: "UpdatePmtpParams", call: func(c sdk.Context, s string, k int) error {
-				_, err := clpSrv.UpdatePmtpParams(g(c), &clptypes.MsgUpdatePmtpParams{Signer: s, PmtpPeriodGovernanceRate: "0.01", PmtpPeriodEpochLength: 10, PmtpPeriodStartBlock: int64(100 + k%10), PmtpPeriodEndBlock: int64(199 + k%10)})
-				return err
-			}},
-			{module: "clp", name: "ModifyPmtpRates", call: func(c sdk.Context, s string, k int) error {
-				_, err := clpSrv.ModifyPmtpRates(g(c), &clptypes.MsgModifyPmtpRates{Signer: s, BlockRate: "0.001", RunningRate: fmt.Sprintf("0.%02d", k%90+1)})
-				return err
-			}},
-			{module: "clp", name: "UpdateSwapFeeParams", call: func(c sdk.Context, s string, k int) error {
-				_, err := clpSrv.UpdateSwapFeeParams(g(c), &clptypes.MsgUpdateSwapFeeParamsRequest{Signer: s, DefaultSwapFeeRate: sdk.NewDecWithPrec(int64(1+k%9), 3)})
-				return err
-			}},
-			{module: "clp", name: "DecommissionPool", call: func(c sdk.Context, s string, k int) error {
-				_, err := clpSrv.DecommissionPool(g(c), &clptypes.MsgDecommissionPool{Signer: s, Symbol: "cdecom"})
-				return err
-			}},
-			{module: "margin", name: "UpdateParams", call: func(c sdk.Context, s string, k int) error {
-				p := app.MarginKeeper.GetParams(c)
-				p.EpochLength = int64(1 + k%20)
-				_, err := marginSrv.UpdateParams(g(c), &margintypes.MsgUpdateParams{Signer: s, Params: &p})
-				return err
-			}},
-			{module: "margin", name: "UpdatePools", call: func(c sdk.Context, s string, k int) error {
-				_, err := marginSrv.UpdatePools(g(c), &margintypes.MsgUpdatePools{Signer: s, Pools: []string{fmt.Sprintf("cp%d", k%3)}, ClosedPools: []string{}})
-				return err
-			}},
-			{module: "margin", name: "UpdateRowanCollateral", call: func(c sdk.Context, s string, k int) error {
-				_, err := marginSrv.UpdateRowanCollateral(g(c), &margintypes.MsgUpdateRowanCollateral{Signer: s, RowanCollateralEnabled: k%2 == 0})
-				return err
-			}},
-			{module: "margin", name: "Whitelist", call: func(c sdk.Context, s string, k int) error {
-				_, err := marginSrv.Whitelist(g(c), &margintypes.MsgWhitelist{Signer: s, WhitelistedAddress: addrs[k%NACC].String()})
-				return err
-			}},
-			{module: "margin", name: "Dewhitelist", call: func(c sdk.Context, s string, k int) error {
-				_, err := marginSrv.Dewhitelist(g(c), &margintypes.MsgDewhitelist{Signer: s, WhitelistedAddress: addrs[k%NACC].String()})
-				return err
-			}},
-			{module: "margin", name: "ForceClose", lenient: true, call: func(c sdk.Context, s string, k int) error {
-				_, err := marginSrv.ForceClose(g(c), &margintypes.MsgForceClose{Signer: s, MtpAddress: addrs[11].String(), Id: 1})
-				return err
-			}},
-			{module: "margin", name: "AdminClose", lenient: true, call: func(c sdk.Context, s string, k int) error {
-				_, err := marginSrv.AdminClose(g(c), &margintypes.MsgAdminClose{Signer: s, MtpAddress: addrs[11].String(), Id: 1, TakeMarginFund: k%2 == 0})
-				return err
-			}},
-			{module: "margin", name: "AdminCloseAll", call: func(c sdk.Context, s string, k int) error {
-				_, err := marginSrv.AdminCloseAll(g(c), &margintypes.MsgAdminCloseAll{Signer: s, TakeMarginFund: k%2 == 0})
-				return err
-			}},
-			{module: "ethbridge", name: "SetPause", call: func(c sdk.Context, s string, k int) error {
-				_, err := ethSrv.SetPause(g(c), &ethtypes.MsgPause{Signer: s, IsPaused: k%2 == 0})
-				return err
-			}},
-			{module: "ethbridge", name: "SetBlacklist", call: func(c sdk.Context, s string, k int) error {
-				_, err := ethSrv.SetBlacklist(g(c), &ethtypes.MsgSetBlacklist{From: s, Addresses: []string{fmt.Sprintf("0x%040x", 0xabc000+k%6)}})
-				return err
-			}},
-			{module: "ethbridge", name: "UpdateWhiteListValidator", call: func(c sdk.Context, s string, k int) error {
-				op := "add"
-				if k%2 == 1 {
-					op = "remove"
-				}
-				_, err := ethSrv.UpdateWhiteListValidator(g(c), &ethtypes.MsgUpdateWhiteListValidator{CosmosSender: s, Validator: sdk.ValAddress(addrs[(k/2)%NACC]).String(), OperationType: op})
-				return err
-			}},
-			{module: "ethbridge", name: "UpdateCethReceiverAccount", call: func(c sdk.Context, s string, k int) error {
-				_, err := ethSrv.UpdateCethReceiverAccount(g(c), &ethtypes.MsgUpdateCethReceiverAccount{CosmosSender: s, CethReceiverAccount: addrs[k%NACC].String()})
-				return err
-			}},
-			{module: "ethbridge", name: "RescueCeth", call: func(c sdk.Context, s string, k int) error {
-				_, err := ethSrv.RescueCeth(g(c), &ethtypes.MsgRescueCeth{CosmosSender: s, CosmosReceiver: addrs[k%NACC].String(), CethAmount: sdk.NewInt(1)})
-				return err
-			}},
-		}
+		cases := mkCases(app, addrs)
 		out.Extra["handlers"] = len(cases)
 
 		run := func(hc handlerCase, signer sdk.AccAddress, k int) {
@@ -293,7 +142,12 @@ func init() {
 			cctx, write := ctx.CacheContext()
 			before := hashStores(cctx, keys)
 			res := protect(func() string {
-				if err := hc.call(cctx, signer.String(), k); err != nil {
+				msg := hc.build(cctx, signer.String(), k)
+				h := app.MsgServiceRouter().Handler(msg) // the route baseapp itself uses
+				if h == nil {
+					panic("no route for " + sdk.MsgTypeURL(msg))
+				}
+				if _, err := h(cctx, msg); err != nil {
 					return "err"
 				}
 				return "ok"
@@ -344,7 +198,7 @@ func init() {
 			s := addrs[[]int{4, 10, 4, 10, 10, rng.Intn(NACC)}[rng.Intn(6)]]
 			kk := rng.Intn(len(roles) * NACC)
 			run(hc, s, kk)
-			_, target := pay(kk)
+			target := addrs[(kk/len(roles))%NACC]
 			for j := 0; j < 6; j++ {
 				h2 := cases[2+rng.Intn(len(cases)-2)]
 				who := target
@@ -355,6 +209,127 @@ func init() {
 			}
 		}
 	}
+}
+
+var authRoles = []admintypes.AdminType{admintypes.AdminType_CLPDEX, admintypes.AdminType_PMTPREWARDS, admintypes.AdminType_TOKENREGISTRY,
+	admintypes.AdminType_ETHBRIDGE, admintypes.AdminType_ADMIN, admintypes.AdminType_MARGIN}
+
+// mkCases: the 30 privileged message types with valid payloads (shared by the L1 and L2 families).
+func mkCases(app *sifapp.SifchainApp, addrs []sdk.AccAddress) []handlerCase {
+	roles := authRoles
+	NACC := len(addrs)
+
+	// the account whose role an AddAccount / RemoveAccount of iteration k is about
+	pay := func(k int) (admintypes.AdminType, sdk.AccAddress) {
+		return roles[k%len(roles)], addrs[(k/len(roles))%NACC]
+	}
+	payS := func(k int) (string, string) { r, a := pay(k); return r.String(), a.String() }
+
+	cases := []handlerCase{
+		{module: "admin", name: "AddAccount", payload: payS, build: func(c sdk.Context, s string, k int) sdk.Msg {
+			r, a := pay(k)
+			return &admintypes.MsgAddAccount{Signer: s, Account: &admintypes.AdminAccount{AdminType: r, AdminAddress: a.String()}}
+		}},
+		{module: "admin", name: "RemoveAccount", payload: payS, build: func(c sdk.Context, s string, k int) sdk.Msg {
+			r, a := pay(k)
+			return &admintypes.MsgRemoveAccount{Signer: s, Account: &admintypes.AdminAccount{AdminType: r, AdminAddress: a.String()}}
+		}},
+		{module: "admin", name: "SetParams", build: func(c sdk.Context, s string, k int) sdk.Msg {
+			return &admintypes.MsgSetParams{Signer: s, Params: &admintypes.Params{SubmitProposalFee: sdk.NewUint(uint64(1000 + k))}}
+		}},
+		{module: "tokenregistry", name: "Register", build: func(c sdk.Context, s string, k int) sdk.Msg {
+			return &trtypes.MsgRegister{From: s, Entry: &trtypes.RegistryEntry{Denom: fmt.Sprintf("ctok%d", k%7), Decimals: 18}}
+		}},
+		{module: "tokenregistry", name: "SetRegistry", build: func(c sdk.Context, s string, k int) sdk.Msg {
+			return &trtypes.MsgSetRegistry{From: s, Registry: &trtypes.Registry{Entries: []*trtypes.RegistryEntry{{Denom: "rowan", Decimals: 18}, {Denom: fmt.Sprintf("cset%d", k%5), Decimals: 6}}}}
+		}},
+		{module: "tokenregistry", name: "Deregister", build: func(c sdk.Context, s string, k int) sdk.Msg {
+			return &trtypes.MsgDeregister{From: s, Denom: fmt.Sprintf("ctok%d", k%7)}
+		}},
+		{module: "clp", name: "SetSymmetryThreshold", build: func(c sdk.Context, s string, k int) sdk.Msg {
+			return &clptypes.MsgSetSymmetryThreshold{Signer: s, Threshold: sdk.NewDecWithPrec(int64(1+k%50), 2), Ratio: sdk.NewDecWithPrec(5, 4)}
+		}},
+		{module: "clp", name: "UpdateLiquidityProtectionParams", build: func(c sdk.Context, s string, k int) sdk.Msg {
+			return &clptypes.MsgUpdateLiquidityProtectionParams{Signer: s, MaxRowanLiquidityThreshold: sdk.NewUint(uint64(1000000 + k)), MaxRowanLiquidityThresholdAsset: "rowan", EpochLength: 10, IsActive: k%2 == 0}
+		}},
+		{module: "clp", name: "ModifyLiquidityProtectionRates", build: func(c sdk.Context, s string, k int) sdk.Msg {
+			return &clptypes.MsgModifyLiquidityProtectionRates{Signer: s, CurrentRowanLiquidityThreshold: sdk.NewUint(uint64(k % 100))}
+		}},
+		{module: "clp", name: "UpdateStakingRewardParams", build: func(c sdk.Context, s string, k int) sdk.Msg {
+			p := minttypes.DefaultParams()
+			p.BlocksPerYear = uint64(6000000 + k)
+			return &clptypes.MsgUpdateStakingRewardParams{Signer: s, Params: p, Minter: minttypes.Minter{Inflation: sdk.ZeroDec(), AnnualProvisions: sdk.ZeroDec()}}
+		}},
+		{module: "clp", name: "UpdateRewardsParams", build: func(c sdk.Context, s string, k int) sdk.Msg {
+			return &clptypes.MsgUpdateRewardsParamsRequest{Signer: s, LiquidityRemovalLockPeriod: uint64(k % 9), LiquidityRemovalCancelPeriod: 3, RewardsLockPeriod: 1, RewardsEpochIdentifier: "day"}
+		}},
+		{module: "clp", name: "AddRewardPeriod", build: func(c sdk.Context, s string, k int) sdk.Msg {
+			one := sdk.OneDec()
+			a := sdk.NewUint(uint64(1000 + k))
+			return &clptypes.MsgAddRewardPeriodRequest{Signer: s, RewardPeriods: []*clptypes.RewardPeriod{{RewardPeriodId: fmt.Sprintf("rp%d", k%4), RewardPeriodStartBlock: 1, RewardPeriodEndBlock: 100, RewardPeriodAllocation: &a, RewardPeriodDefaultMultiplier: &one, RewardPeriodDistribute: false, RewardPeriodMod: 1}}}
+		}},
+		{module: "clp", name: "AddProviderDistributionPeriod", build: func(c sdk.Context, s string, k int) sdk.Msg {
+			return &clptypes.MsgAddProviderDistributionPeriodRequest{Signer: s, DistributionPeriods: []*clptypes.ProviderDistributionPeriod{{DistributionPeriodBlockRate: sdk.NewDecWithPrec(1, 2), DistributionPeriodStartBlock: 10, DistributionPeriodEndBlock: uint64(20 + k%10), DistributionPeriodMod: 1}}}
+		}},
+		{module: "clp", name: "UpdatePmtpParams", build: func(c sdk.Context, s string, k int) sdk.Msg {
+			return &clptypes.MsgUpdatePmtpParams{Signer: s, PmtpPeriodGovernanceRate: "0.01", PmtpPeriodEpochLength: 10, PmtpPeriodStartBlock: int64(1000000 + k%10), PmtpPeriodEndBlock: int64(1000099 + k%10)}
+		}},
+		{module: "clp", name: "ModifyPmtpRates", build: func(c sdk.Context, s string, k int) sdk.Msg {
+			return &clptypes.MsgModifyPmtpRates{Signer: s, BlockRate: "0.001", RunningRate: fmt.Sprintf("0.%02d", k%90+1)}
+		}},
+		{module: "clp", name: "UpdateSwapFeeParams", build: func(c sdk.Context, s string, k int) sdk.Msg {
+			return &clptypes.MsgUpdateSwapFeeParamsRequest{Signer: s, DefaultSwapFeeRate: sdk.NewDecWithPrec(int64(1+k%9), 3)}
+		}},
+		{module: "clp", name: "DecommissionPool", build: func(c sdk.Context, s string, k int) sdk.Msg {
+			return &clptypes.MsgDecommissionPool{Signer: s, Symbol: "cdecom"}
+		}},
+		{module: "margin", name: "UpdateParams", build: func(c sdk.Context, s string, k int) sdk.Msg {
+			p := app.MarginKeeper.GetParams(c)
+			p.EpochLength = int64(1 + k%20)
+			return &margintypes.MsgUpdateParams{Signer: s, Params: &p}
+		}},
+		{module: "margin", name: "UpdatePools", build: func(c sdk.Context, s string, k int) sdk.Msg {
+			return &margintypes.MsgUpdatePools{Signer: s, Pools: []string{fmt.Sprintf("cp%d", k%3)}, ClosedPools: []string{}}
+		}},
+		{module: "margin", name: "UpdateRowanCollateral", build: func(c sdk.Context, s string, k int) sdk.Msg {
+			return &margintypes.MsgUpdateRowanCollateral{Signer: s, RowanCollateralEnabled: k%2 == 0}
+		}},
+		{module: "margin", name: "Whitelist", build: func(c sdk.Context, s string, k int) sdk.Msg {
+			return &margintypes.MsgWhitelist{Signer: s, WhitelistedAddress: addrs[k%NACC].String()}
+		}},
+		{module: "margin", name: "Dewhitelist", build: func(c sdk.Context, s string, k int) sdk.Msg {
+			return &margintypes.MsgDewhitelist{Signer: s, WhitelistedAddress: addrs[k%NACC].String()}
+		}},
+		{module: "margin", name: "ForceClose", lenient: true, build: func(c sdk.Context, s string, k int) sdk.Msg {
+			return &margintypes.MsgForceClose{Signer: s, MtpAddress: addrs[11].String(), Id: 1}
+		}},
+		{module: "margin", name: "AdminClose", lenient: true, build: func(c sdk.Context, s string, k int) sdk.Msg {
+			return &margintypes.MsgAdminClose{Signer: s, MtpAddress: addrs[11].String(), Id: 1, TakeMarginFund: k%2 == 0}
+		}},
+		{module: "margin", name: "AdminCloseAll", build: func(c sdk.Context, s string, k int) sdk.Msg {
+			return &margintypes.MsgAdminCloseAll{Signer: s, TakeMarginFund: k%2 == 0}
+		}},
+		{module: "ethbridge", name: "SetPause", build: func(c sdk.Context, s string, k int) sdk.Msg {
+			return &ethtypes.MsgPause{Signer: s, IsPaused: k%2 == 0}
+		}},
+		{module: "ethbridge", name: "SetBlacklist", build: func(c sdk.Context, s string, k int) sdk.Msg {
+			return &ethtypes.MsgSetBlacklist{From: s, Addresses: []string{fmt.Sprintf("0x%040x", 0xabc000+k%6)}}
+		}},
+		{module: "ethbridge", name: "UpdateWhiteListValidator", build: func(c sdk.Context, s string, k int) sdk.Msg {
+			op := "add"
+			if k%2 == 1 {
+				op = "remove"
+			}
+			return &ethtypes.MsgUpdateWhiteListValidator{CosmosSender: s, Validator: sdk.ValAddress(addrs[(k/2)%NACC]).String(), OperationType: op}
+		}},
+		{module: "ethbridge", name: "UpdateCethReceiverAccount", build: func(c sdk.Context, s string, k int) sdk.Msg {
+			return &ethtypes.MsgUpdateCethReceiverAccount{CosmosSender: s, CethReceiverAccount: addrs[k%NACC].String()}
+		}},
+		{module: "ethbridge", name: "RescueCeth", build: func(c sdk.Context, s string, k int) sdk.Msg {
+			return &ethtypes.MsgRescueCeth{CosmosSender: s, CosmosReceiver: addrs[k%NACC].String(), CethAmount: sdk.NewInt(1)}
+		}},
+	}
+	return cases
 }
 
 func b2s(b bool) string {
